@@ -236,8 +236,53 @@ def oracle_case(case, obs, what):
     return (f"expected={e}|got={g}", f"expected {exp}, got {got}")
 
 
+_IDENT = __import__("re").compile(r"^[a-z][a-z0-9]*$")
+
+
+def _valid_items(items) -> bool:
+    for it in items:
+        if not isinstance(it, list) or not it:
+            return False
+        k = it[0]
+        if k == "t":
+            ok = len(it) == 2 and isinstance(it[1], str) and "{" not in it[1]
+        elif k == "v":
+            ok = len(it) == 2 and bool(_IDENT.match(it[1]))
+        elif k == "s":
+            ok = len(it) == 1
+        elif k == "b":
+            ok = len(it) == 4 and bool(_IDENT.match(it[1])) and isinstance(it[2], bool) and _valid_items(it[3])
+        elif k == "l":
+            ok = len(it) == 4 and bool(_IDENT.match(it[1])) and isinstance(it[2], int) and 0 <= it[2] <= 5 and _valid_items(it[3])
+        elif k == "x":
+            ok = len(it) == 2 and bool(_IDENT.match(it[1]))
+        else:
+            ok = False
+        if not ok:
+            return False
+    return True
+
+
+def valid_case(case) -> bool:
+    try:
+        return (
+            bool(_IDENT.match(case["leaf"]))
+            and all(len(t) == 2 and _IDENT.match(t[0]) and _valid_items(t[1]) for t in case["templates"])
+            and all(len(d) == 2 and _IDENT.match(d[0]) and isinstance(d[1], str) for d in case["data"])
+        )
+    except Exception:
+        return False
+
+
 class _InheritStream(Stream):
     parallel = True
+
+    def shrink_candidates(self, case):
+        from ..core import generic_shrinks
+
+        for cand in generic_shrinks(case):  # structural shrinking, but only to cases that are still templates
+            if valid_case(cand):
+                yield cand
 
     def impl(self, case):
         sources = {}
@@ -561,7 +606,7 @@ def expected_tokens(toks):
             if not stack:
                 return "syntax"
             name = stack.pop()
-            if t[1] is not None and t[1] != name:
+            if t[1] and t[1] != name:
                 return "mismatch"
     return "syntax" if stack else "ok"
 
@@ -607,6 +652,11 @@ class EndblockStream(Stream):
 
     def nontrivial(self, case, obs):
         return any(t[0] == "c" and t[1] for t in case["toks"])
+
+    def shrink_candidates(self, case):
+        toks = case["toks"]
+        for i in range(len(toks)):  # drop tokens only; names stay what they are
+            yield {"toks": toks[:i] + toks[i + 1 :]}
 
     def tags(self, case, obs):
         return [expected_tokens(case["toks"]), "ok" if "ok" in obs else obs["err"]]
